@@ -5,6 +5,12 @@ ALL = ["C%02d" % i for i in range(1, 21)]
 
 CHECKS = [
     {
+        "property_id": "C12",
+        "text": "Coq theorems on the protocol model for presenceless documents (nothing stored, nothing returned, for every request). Presence convergence is decided on the real system: random histories with presence edits, detach/re-attach, deactivation, snapshots, presenceless documents; oracle AllPresences equal on all replicas = attached actors; traffic replayed through the model.",
+        "note": "Convergence of presence is an oracle over real histories (its delivery basis is C04's theorem); the presenceless clauses are theorems.",
+        "technique": "Coq proof (presenceless invariants) + trace replay + presence oracles on real histories",
+    },
+    {
         "property_id": "C19",
         "text": "The property quantifies over a finite named matrix: all 1592 pairs x 2 actor orders x 2 delivery orders are executed on the real tree CRDT with a snapshot-fed third replica and clone==root checks (exhaustive). Coq proves the style fragment only (attribute tables are LWW registers whose operations commute; model tied to crdt.RHT).",
         "note": "PARTIAL proof: no Coq model of crdt/tree.go (merge/split machinery); the verdict on the matrix is exhaustive execution, which is the property's own finite quantifier.",
